@@ -124,6 +124,17 @@ def run(ctx):
     out2 = {0: ['UnknownIssue'], 1: ['KnownIssue']}
     sched2 = [('Start',), ('Exit', 0), ('Exit', 1), ('PM', 0), ('PMB', 1), ('Fin', 0), ('Fin', 1), ('PME', 1), ('Tick',)]
     run_one(ctx, W2, out2, scripted(sched2), terms, 'corpus', slow_pm=True)
+    # several stages: a component of stage 1 is launched after stage 0 has observed a failure, against a
+    # producer that was stopped rather than left to fail (C02_multistage_spec_refuted)
+    W3 = [SC.comp(mx=0), SC.comp(repl=True, mx=0), SC.comp(repl=True, mx=0), SC.comp(mx=0),
+          SC.comp(stage=1, agg=True, preds=[1, 2], mx=0)]
+    out3 = {0: ['UnknownIssue'], 1: ['UnknownIssue'], 2: ['Success'], 3: ['Success'], 4: ['Success']}
+    sched3 = [('Start',), ('Tick',), ('Exit', 2), ('PM', 2), ('Fin', 2), ('Exit', 0), ('PM', 0), ('Fin', 0), ('Exit', 1),
+              ('Fin', 1), ('Tick',), ('Exit', 4), ('PM', 4), ('Fin', 4), ('Exit', 3), ('Fin', 3), ('Tick',)]
+    tr3 = run_one(ctx, W3, out3, scripted(sched3), terms, 'corpus')
+    if [t[0] for t in tr3][:len(sched3)] != sched3 or tr3[len(sched3) - 1][2]['comps'][4][0] != 'finished':
+        ctx.disagree({'W': W3, 'schedule': [t[0] for t in tr3]}, 'the multi-stage witness of C02_multistage_spec_refuted did not replay on the real controller',
+                     None, 'C02 Refuted.v witness vs real Controller')
     nex = exhaustive_small(ctx, terms, 4 if ctx.tier == 'quick' else 7)
     ctx.count('exhaustive_runs', nex)
     nrand = 200 if ctx.tier == 'quick' else 5000
